@@ -135,6 +135,8 @@ type Exec struct {
 	funcs      map[string]string
 	intrins    map[string]int
 	harnessRT  map[*ssa.Function]bool
+	fnames     map[*ssa.Function]string
+	consts     map[*ssa.Const]Value
 	cutPending *ssa.Function
 	wantSample func(*Job) bool
 }
@@ -153,7 +155,7 @@ func NewExec(prog *ssa.Program, cfg *Config) (*Exec, error) {
 	ex := &Exec{prog: prog, cfg: cfg, ctx: sym.NewCtx(),
 		globals: map[*ssa.Global]*Value{}, finfo: map[*ssa.Function]*funcInfo{},
 		initDone: map[*ssa.Package]bool{}, tables: map[string]*sym.Table{},
-		funcs: map[string]string{}, intrins: map[string]int{}, harnessRT: map[*ssa.Function]bool{},
+		funcs: map[string]string{}, intrins: map[string]int{}, harnessRT: map[*ssa.Function]bool{}, fnames: map[*ssa.Function]string{}, consts: map[*ssa.Const]Value{},
 		wg: map[*Value]int64{}}
 	s, err := sym.NewSolver(cfg.Solver, ex.ctx, cfg.QueryTimeout)
 	if err != nil {
@@ -177,7 +179,7 @@ func (ex *Exec) noteFunc(fn *ssa.Function, note string) {
 	if ex.inInit {
 		return
 	}
-	name := fn.String()
+	name := ex.fname(fn)
 	if _, ok := ex.funcs[name]; !ok {
 		ex.funcs[name] = ex.pos(fn.Pos())
 	}
